@@ -44,9 +44,7 @@ def build_reference(tier):
             ref[tid]["outcome"] = a.get("outcome", "value")
         full[tid] = ev.get("full")
         walls[tid] = r["wall_s"]
-        if r["violations"]:
-            raise RuntimeError(f"reference session for {tid} reports {r['violations'][:1]}")
-    return ref, full, walls
+    return ref, full, walls, jobs, res
 
 
 def ref_for(ref, steps):
@@ -104,7 +102,7 @@ def run(tier, seed):
     thorough = tier == "thorough"
     budget = float(os.environ.get("VERIF_BUDGET_S", 1700 if thorough else 110))
     try:
-        ref, ref_full, ref_walls = build_reference(tier)
+        ref, ref_full, ref_walls, ref_jobs, ref_res = build_reference(tier)
     except RuntimeError as exc:
         log(f"HARNESS-ERROR {exc}")
         return 2
@@ -112,7 +110,10 @@ def run(tier, seed):
     tids = [t["id"] for t in c19.templates_for(tier)]
     pool = driver.env_pool(seed, 32 if thorough else 12, thorough)
     rng = derive(seed, "c19", "host")
-    all_jobs, all_results, families = [], [], []
+    # violations inside a pristine single-request session (registry model, H2) are
+    # reported like any other
+    all_jobs, all_results = list(ref_jobs), list(ref_res)
+    families = ["reference"] * len(ref_jobs)
 
     def submit(jobs, family, group_size=None):
         res = host.run_jobs(jobs, group_size=group_size)
